@@ -35,7 +35,25 @@ class Cont:
 BRK = Brk()
 CONT = Cont()
 
-_addr = itertools.count(1_000_000)
+class _Counter:
+    """address allocator that relational (two-run) drivers can rewind so that both runs
+    allocate the same addresses for corresponding objects"""
+
+    def __init__(self, start):
+        self.n = start
+
+    def __next__(self):
+        self.n += 1
+        return self.n
+
+    def mark(self):
+        return self.n
+
+    def reset(self, m):
+        self.n = m
+
+
+_addr = _Counter(1_000_000)
 
 
 class State:
